@@ -829,4 +829,120 @@ theorem tie_skel_bufferManager_recycleBuffer_c06 : Gen.Skel.bufferManager_recycl
   "putBackBufferSlice(slice)",
   "}"] := by rfl
 
+/-! further functions on this property's paths (any edit to them is reported) -/
+
+theorem tie_skel_newEmptyLinkedBuffer : Gen.Skel.newEmptyLinkedBuffer = [
+  "func newEmptyLinkedBuffer(manager *bufferManager) *linkedBuffer {",
+  "l := &linkedBuffer{",
+  "sliceList: newSliceList(),",
+  "pinnedList: newSliceList(),",
+  "bufferManager: manager,",
+  "isFromShm: true,",
+  "}",
+  "return l",
+  "}"] := by rfl
+
+theorem tie_skel_linkedBuffer_isFromShareMemory : Gen.Skel.linkedBuffer_isFromShareMemory = [
+  "func (l *linkedBuffer) isFromShareMemory() bool {",
+  "return l.isFromShm",
+  "}"] := by rfl
+
+theorem tie_skel_linkedBuffer_bindStream : Gen.Skel.linkedBuffer_bindStream = [
+  "func (l *linkedBuffer) bindStream(s *Stream) {",
+  "l.stream = s",
+  "}"] := by rfl
+
+theorem tie_skel_bufferSlice_next : Gen.Skel.bufferSlice_next = [
+  "func (s *bufferSlice) next() *bufferSlice {",
+  "return s.nextSlice",
+  "}"] := by rfl
+
+theorem tie_skel_bufferSlice_capacity : Gen.Skel.bufferSlice_capacity = [
+  "func (s *bufferSlice) capacity() int {",
+  "return int(s.cap)",
+  "}"] := by rfl
+
+theorem tie_skel_bufferSlice_prepend : Gen.Skel.bufferSlice_prepend = [
+  "func (s *bufferSlice) prepend() {",
+  "panic(\"TODO\")",
+  "}"] := by rfl
+
+theorem tie_skel_newSliceList : Gen.Skel.newSliceList = [
+  "func newSliceList() *sliceList {",
+  "return &sliceList{}",
+  "}"] := by rfl
+
+theorem tie_skel_sliceList_front : Gen.Skel.sliceList_front = [
+  "func (l *sliceList) front() *bufferSlice {",
+  "return l.frontSlice",
+  "}"] := by rfl
+
+theorem tie_skel_sliceList_back : Gen.Skel.sliceList_back = [
+  "func (l *sliceList) back() *bufferSlice {",
+  "return l.backSlice",
+  "}"] := by rfl
+
+theorem tie_skel_sliceList_size : Gen.Skel.sliceList_size = [
+  "func (l *sliceList) size() int {",
+  "return l.len",
+  "}"] := by rfl
+
+theorem tie_skel_newStream : Gen.Skel.newStream = [
+  "func newStream(session *Session, id uint32) *Stream {",
+  "s := &Stream{",
+  "id: id,",
+  "session: session,",
+  "state: uint32(streamOpened),",
+  "recvBuf: newEmptyLinkedBuffer(session.bufferManager),",
+  "sendBuf: newEmptyLinkedBuffer(session.bufferManager),",
+  "pendingData: new(pendingData),",
+  "recvNotifyCh: make(chan struct{}, 1),",
+  "closeNotifyCh: make(chan struct{}),",
+  "}",
+  "s.recvBuf.bindStream(s)",
+  "s.sendBuf.bindStream(s)",
+  "s.pendingData.stream = s",
+  "return s",
+  "}"] := by rfl
+
+theorem tie_skel_Stream_BufferWriter : Gen.Skel.Stream_BufferWriter = [
+  "func (s *Stream) BufferWriter() BufferWriter {",
+  "return s.sendBuf",
+  "}"] := by rfl
+
+theorem tie_skel_Stream_BufferReader : Gen.Skel.Stream_BufferReader = [
+  "func (s *Stream) BufferReader() BufferReader {",
+  "return s.recvBuf",
+  "}"] := by rfl
+
+theorem tie_skel_Stream_Read : Gen.Skel.Stream_Read = [
+  "func (s *Stream) Read(p []byte) (int, error) {",
+  "return s.copyRead(p)",
+  "}"] := by rfl
+
+theorem tie_skel_Stream_Write : Gen.Skel.Stream_Write = [
+  "func (s *Stream) Write(p []byte) (int, error) {",
+  "return s.copyWriteAndFlush(p)",
+  "}"] := by rfl
+
+theorem tie_skel_bufferManager_remainSize : Gen.Skel.bufferManager_remainSize = [
+  "func (b *bufferManager) remainSize() uint32 {",
+  "var result uint32",
+  "for _, pair := range b.lists {",
+  "remain := int(*pair.size) * int(*pair.capPerBuffer)",
+  "if remain > 0 {",
+  "result += uint32(remain)",
+  "}",
+  "}",
+  "return result",
+  "}"] := by rfl
+
+theorem tie_skel_bufferManager_sliceSize : Gen.Skel.bufferManager_sliceSize = [
+  "func (b *bufferManager) sliceSize() (size int) {",
+  "for i := range b.lists {",
+  "size += int(*b.lists[i].size)",
+  "}",
+  "return",
+  "}"] := by rfl
+
 end Tie.C06
